@@ -529,6 +529,66 @@ pub fn units() -> Vec<Unit> {
             IoMode(false),
         ],
     },
+    // ---- builder E (tie A, PHY encoders continued): the `while` loop of the SX126x symbol-count timeout
+    Unit {
+        module: "Gen.PhyEncE126",
+        file: "lora-phy/src/sx126x/mod.rs",
+        more_files: vec!["lora-phy/src/sx126x/variant.rs", "lora-phy/src/sx126x/radio_kind_params.rs", "lora-phy/src/mod_params.rs", "lora-modulation/src/lib.rs"],
+        imports: vec!["LoraVerif.RtPhy", "LoraVerif.Gen.PhyCodes126", "LoraVerif.Gen.PhyArith", "LoraVerif.Gen.PhyErr"],
+        items: vec![
+            ExternUnit("Gen.PhyCodes126"),
+            ExternUnit("Gen.PhyArith"),
+            ExternUnit("Gen.PhyErr"),
+            Struct("Sx1262"),
+            Alias("C", "Sx1262"),
+            Struct("Config"),
+            StructPartial("Sx126x", &["config"]),
+            Raw("/-- how many steps a `while` loop may take before the translation answers `none` (a panic) -/\nclass LoopFuel where\n  fuel : Nat\nvariable [LoopFuel]\n"),
+            IoMode(true),
+            Fn("Sx126x::set_lora_symbol_num_timeout"),
+            IoMode(false),
+        ],
+    },
+    // builder E: `calibrate_image` of the SX126x (array element assignment inside an `if` chain)
+    Unit {
+        module: "Gen.PhyEncE126Cal",
+        file: "lora-phy/src/sx126x/mod.rs",
+        more_files: vec!["lora-phy/src/sx126x/variant.rs", "lora-phy/src/sx126x/radio_kind_params.rs", "lora-phy/src/mod_params.rs", "lora-modulation/src/lib.rs"],
+        imports: vec!["LoraVerif.RtPhy", "LoraVerif.Gen.PhyCodes126", "LoraVerif.Gen.PhyArith", "LoraVerif.Gen.PhyErr"],
+        items: vec![
+            ExternUnit("Gen.PhyCodes126"),
+            ExternUnit("Gen.PhyArith"),
+            ExternUnit("Gen.PhyErr"),
+            Struct("Sx1262"),
+            Alias("C", "Sx1262"),
+            Struct("Config"),
+            StructPartial("Sx126x", &["config"]),
+            IoMode(true),
+            TraitFn("RadioKind", "Sx126x", "calibrate_image"),
+            IoMode(false),
+        ],
+    },
+    // builder E: `set_channel` of the SX127x (`freq_to_pll_step` reused from Gen.PhyArith)
+    Unit {
+        module: "Gen.PhyEncE1276Ch",
+        file: "lora-phy/src/sx127x/mod.rs",
+        more_files: vec!["lora-phy/src/sx127x/sx1276.rs", "lora-phy/src/sx127x/radio_kind_params.rs", "lora-phy/src/mod_params.rs", "lora-modulation/src/lib.rs"],
+        imports: vec!["LoraVerif.RtPhy", "LoraVerif.Gen.PhyCodes127", "LoraVerif.Gen.PhyArith", "LoraVerif.Gen.PhyErr"],
+        items: vec![
+            ExternUnit("Gen.PhyCodes127"),
+            ExternUnit("Gen.PhyArith"),
+            ExternUnit("Gen.PhyErr"),
+            Struct("Sx1276"),
+            Struct("Sx1276Data"),
+            Alias("C", "Sx1276"),
+            Alias("C::Data", "Sx1276Data"),
+            Struct("Config"),
+            StructPartial("Sx127x", &["config", "data"]),
+            IoMode(true),
+            TraitFn("RadioKind", "Sx127x", "set_channel"),
+            IoMode(false),
+        ],
+    },
     // ---- builder N (tie A for more stateful methods)
     // C11: `Otaa::handle_rx` — the join step.  The crypto stays abstract: the radio buffer is what
     // `check_mic_and_decrypt_in_place` yields on it under a key (`none` = `Err`), the decrypted view exposes
